@@ -181,11 +181,18 @@ fn resolve_renamed(
 ) -> Option<String> {
     let name_map = serde_renamed.get(id)?;
 
-    // Find in imports.
+    // Find in imports. The same type name may be imported from more than one crate; `import_types`
+    // is a hash set, so pick the candidate by crate name rather than by iteration order.
     import_types
         .iter()
         .filter(|i| i.type_name == id)
-        .find_map(|import_ref| name_map.get(&import_ref.base_crate))
+        .filter_map(|import_ref| {
+            name_map
+                .get(&import_ref.base_crate)
+                .map(|renamed| (&import_ref.base_crate, renamed))
+        })
+        .min_by_key(|(base_crate, _)| *base_crate)
+        .map(|(_, renamed)| renamed)
         // Fallback to looking up in our current namespace.
         .or_else(|| name_map.get(crate_name))
         .map(ToOwned::to_owned)
